@@ -4,6 +4,7 @@ use crate::engine::{Ctx, Fail};
 use serde_json::Value as J;
 
 pub mod c05;
+pub mod c13;
 pub mod c18;
 
 pub fn level_of(id: &str) -> &'static str {
@@ -16,6 +17,7 @@ pub fn level_of(id: &str) -> &'static str {
 pub fn run(ctx: &Ctx) -> bool {
     match ctx.id.as_str() {
         "C05" => c05::run(ctx),
+        "C13" => c13::run(ctx),
         "C18" => c18::run(ctx),
         _ => return false,
     }
@@ -25,6 +27,7 @@ pub fn run(ctx: &Ctx) -> bool {
 pub fn replay(ctx: &Ctx, id: &str, kind: &str, case: &J) -> Vec<Fail> {
     match id {
         "C05" => c05::replay(ctx, kind, case),
+        "C13" => c13::replay(ctx, kind, case),
         "C18" => c18::replay(ctx, kind, case),
         _ => vec![Fail::new("harness", format!("no replay for property {}", id))],
     }
